@@ -228,7 +228,8 @@ func (in *Interp) havocValue(t types.Type, name string, opt *HavocOpts, depth in
 		return in.newSlice(u.Elem(), e, n)
 	}
 	if _, ok := t.Underlying().(*types.Interface); ok {
-		if in.param("havocnonnil", 0) == 0 {
+		// a curve.Curve field is never decoded: it is the (unexported) group a proof/message was pre-shaped with by Empty(group)
+		if in.param("havocnonnil", 0) == 0 && typeKey(t) != curvePkg+"Curve" {
 			nilv := in.freshVar(name+".nil", BoolSort)
 			if in.branch(nilv) {
 				return IfaceV{}
